@@ -56,6 +56,13 @@ ASSUMPTIONS = [
 
 EPS = 1.0e-11
 FLOOR = 1000 * EPS  # absolute noise floor of every difference of converged quantities
+# the analytical / semi-numerical force evaluators difference the overlap integrals internally (delta = 1e-5 A): their
+# forces carry an absolute noise of ~1e-7 eV/A (measured 1.4e-7 at 500 A; 5.6e-6 is the worst disagreement with autodiff, C01)
+FLOOR_FORCE_FD = 5e-6
+
+
+def _floor(t, k):
+    return FLOOR_FORCE_FD if (k == "force" and t.get("fmode")) else FLOOR
 K_ENV = 5.0
 K_STEP = 1.5
 ABS_500 = {"E": 1e-6, "force": 1e-6, "q": 1e-6, "e_mo": 1e-3}
@@ -71,9 +78,9 @@ CUTOFFS = [5.0, 15.0, 60.0]
 TRIPLES = [("H2O", "HF", "CH4"), ("H2CO", "NH3", "H2O"), ("HF", "HF", "NH3")]
 
 
-def _params(method, cutoff=None):
+def _params(method, cutoff=None, fmode=None):
     extra = {} if cutoff is None else {"pair_outer_cutoff": float(cutoff)}
-    return sp.make_params(method, eps=EPS, **extra)
+    return sp.make_params(method, eps=EPS, force_mode=fmode or "autodiff", **extra)
 
 
 def _pairs():
@@ -99,7 +106,7 @@ def _build(t, R):
 
 def run_series(t):
     """additivity series of one (system, method, orientation): isolated fragments + every R."""
-    p = _params(t["method"])
+    p = _params(t["method"], fmode=t.get("fmode"))
     mol, frag_of, rows, frs = _build(t, RS[0])
     iso = [FR.evaluate(f, p) for f in frs]
     out = {"iso_nc": [i["notconverged"] for i in iso], "points": [], "n_eval": len(iso)}
@@ -228,6 +235,11 @@ def _tasks(tier, seed):
         for m in methods:
             for o in orients:
                 tasks.append(dict(kind="series", sys="dimer", names=names, method=m, orient=o, seed=seed, Rs=RS))
+    # the other force evaluators (analytical and semi-numerical derivatives of the integrals) on a sub-lattice
+    for names in [("H2O", "H2O"), ("H2O", "HF"), ("NH3", "H2CO"), ("CH4", "HF")] if tier == "quick" else _pairs():
+        for m in ["AM1", "PM3"] if tier == "quick" else ["MNDO", "AM1", "PM3"]:
+            for fmode in ("analytical", "semi_numerical"):
+                tasks.append(dict(kind="series", sys="dimer", names=names, method=m, orient=0, seed=seed, Rs=RS, fmode=fmode))
     for names in TRIPLES:
         for m in (["AM1", "PM6_SP"] if tier == "quick" else methods):
             tasks.append(dict(kind="series", sys="trimer", names=names, method=m, orient=0, seed=seed, Rs=[8.0, 12.0, 16.0, 30.0, 100.0, 500.0]))
@@ -267,7 +279,8 @@ def run(chk, tier, seed):
     planned = 0
     for t, r in zip(tasks, results):
         base = dict(system=_sysname(t), method=t["method"], orientation=t["orient"], seed=int(seed), lattice=t["kind"])
-        tag = f"{t['kind']}|{_sysname(t)}|{t['method']}|o{t['orient']}"
+        tag = f"{t['kind']}|{_sysname(t)}|{t['method']}|o{t['orient']}" + (f"|{t['fmode']}" if t.get("fmode") else "")
+        base["force_mode"] = t.get("fmode") or "autodiff"
         if is_timeout(r) or is_error(r):
             chk.violation(dict(base, kind="harness"), f"{tag}: task did not complete: {str(r)[:300]}", replay=t)
             continue
@@ -289,7 +302,7 @@ def run(chk, tier, seed):
                 for k in ("force", "q", "e_mo"):
                     n = POWER[k]
                     a, b = byR[21.0][k] * 21.0**n, byR[22.0][k] * 22.0**n
-                    if max(a, b) > K_STEP * min(a, b) + FLOOR * 22.0**n:
+                    if max(a, b) > K_STEP * min(a, b) + _floor(t, k) * 22.0**n:
                         chk.violation(dict(base, kind="cutoff_step", observable=k, R=21.5, ratio=float(max(a, b) / max(min(a, b), 1e-300))),
                                       f"{tag}: |d{k}| R^{n} jumps from {a:.4g} at 21 A to {b:.4g} at 22 A (step at the 40 bohr overlap cutoff)",
                                       replay=dict(t, Rs=[21.0, 22.0]))  # fmt: skip
@@ -317,9 +330,9 @@ def run(chk, tier, seed):
                     continue
                 for k, n in POWER.items():
                     val = pt["d"][k] * pt["R"] ** n
-                    lim = K_ENV * near[k] + FLOOR * pt["R"] ** n
+                    lim = K_ENV * near[k] + _floor(t, k) * pt["R"] ** n
                     if near[k] > 0:
-                        worst_ratio[k] = max(worst_ratio[k], (val - FLOOR * pt["R"] ** n) / near[k])
+                        worst_ratio[k] = max(worst_ratio[k], (val - _floor(t, k) * pt["R"] ** n) / near[k])
                     if not (val <= lim):
                         chk.violation(
                             dict(base, kind="envelope", observable=k, R=pt["R"], power=n, value=float(val), near_field=float(near[k]),
@@ -408,7 +421,7 @@ def replay(payload):
             for k, n in POWER.items():
                 val = pt["d"][k] * pt["R"] ** n
                 line += f"  |d{k}|R^{n}={val:.4g}"
-                if pt["R"] > NEAR_MAX and near[k] > 0 and not (val <= K_ENV * near[k] + FLOOR * pt["R"] ** n):
+                if pt["R"] > NEAR_MAX and near[k] > 0 and not (val <= K_ENV * near[k] + _floor(t, k) * pt["R"] ** n):
                     line += "(!)"
                     ok = False
                 if pt["R"] == 500.0 and not (pt["d"][k] <= ABS_500[k]):
